@@ -61,6 +61,31 @@ CLAIMED = {
             "Each step of each chain is judged by membership in an enumerated set of allowed outcomes plus the protection clause on the re-segmented result; held on the calls listed in the evidence.",
             "trusted: unicode-segmentation; every insertion position is treated as legal (the statement allows 'unchanged or one edit').",
             "DESIGN.md 6/C15"),
+    "C06": ("exploration",
+            "conservation / exactly-once monitor over uniquely tagged items through the real Batched iterator: partition, non-empty batches, limit, determinism per seed, greedy-maximality vs a reference batcher when unsorted; direct checks of find_subsequences_of_max_size_k; CPU-time non-termination verdict; release-profile and Miri lanes in thorough",
+            "Every generated (size sequence, configuration) runs the real iterator to exhaustion and is judged by conservation and limit invariants; held on the executions listed in the evidence (10^6 per quick run).",
+            "trusted: limit = max(1, batch_limit) and prefetch = max(1, ..) as documented by the constructor; batch composition under sort/shuffle is free.",
+            "DESIGN.md 6/C06"),
+    "C07": ("exploration",
+            "exactly-once / per-source order monitor over uniquely tagged items through the real MultiTrainDataGenerator, round-robin reference for interleaved, same-seed reproducibility for weighted, CPU-time non-termination verdict (supervisor), Miri lane in thorough",
+            "Every generated vector of source lengths x strategy x seed is iterated to the end on the real generator and judged by an exactly-once/order oracle; non-termination is decided in CPU time by the supervisor. Held on the executions listed in the evidence.",
+            "trusted: round-robin semantics 'cycle over the sources that still have items, starting at 0'.",
+            "DESIGN.md 6/C07"),
+    "C16": ("exploration",
+            "runtime tiling oracle: windows of the real windows::{windows,char,byte} checked for partition, context bounds, slice equality and byte/char boundary agreement; justified-error oracle; extreme-limit lane; CPU-time non-termination verdict; release-profile and Miri lanes in thorough",
+            "Every generated (text, configuration) is judged by structural invariants recomputed from the characters of the text; held on the executions listed in the evidence (4*10^6 per quick run).",
+            "trusted: unicode-segmentation; an Err is justified iff max <= 2*context or a character is wider than max - 2*context.",
+            "DESIGN.md 6/C16"),
+    "C18": ("exploration",
+            "differential runtime oracle: real match_words / edited_words vs an independent LCS dynamic programme; monotonicity, equality and complement checks; Miri lane in thorough",
+            "Every generated pair of word sequences is judged against an independent LCS length and structural checks of the returned matching; held on the executions listed in the evidence.",
+            "trusted: the harness LCS; inputs use ASCII whitespace and letters with 1:1 case mapping only.",
+            "DESIGN.md 6/C18"),
+    "C19": ("exploration",
+            "offline replay of the merge table written by the real train_bpe against an independent recount of pair frequencies (greedy-maximality at every step, ids 0..n-1, exhaustion), for several thread counts per corpus; tokenizer built from the table checked for losslessness and vocabulary consistency",
+            "Every training run of every case is judged on its own by replaying the table against recounted statistics; counting schedules are whatever the OS produces for 0-32 threads on contention-heavy corpora. Held on the trainings listed in the evidence.",
+            "trusted: the harness recount (split_whitespace words, leading space from the second word on) on NFKC-stable text; ties may be broken either way.",
+            "DESIGN.md 6/C19"),
 }
 
 PENDING_REASON = "monitor not built yet in this session (planned in DESIGN.md section 6); not claimed until its check exists and is silent on the unchanged tree"
